@@ -9,7 +9,9 @@ P = {
  "C01": (False, "who-may + must-pass-through (SSA edge cuts) + lockset: rebuild/flood requested after every topology write; table and costs replaced in one critical section; positive edge costs", "", ""),
  "C02": (False, "agreement tables: encoder/decoder byte layouts and framer prefix; single delivery site keyed by ToService on the local node; address fields immutable", "", ""),
  "C03": (False, "value identity + path rules on the bridge/relay code only", "", ""),
- "C04": (False, "error-flow + must-pass-through on allocate/restart; open-flag discipline for the status file; lock re-entrancy on the unit index", "", ""),
+ "C04": (True, "who-may-open + open-flag discipline for the status file, failure-assumption path rules on allocate/restart (SSA edge cuts), sibling check over all WorkUnit.Restart implementations, may-hold lock re-entrancy, persist-before-proceed ordering",
+         "Decides structural clauses of crash/restart survival for every crash point and request: only StatusFileData.{Save,Load,UpdateFullStatus} open a unit's status file and none may rewrite it destructively in place (today's O_TRUNC/Truncate writers are listed as known finding K1); assuming Save or SetFromParams fails, AllocateUnit neither indexes nor returns the unit, and Save precedes indexing; AllocateRemoteUnit returns the unit only if writing its remote binding succeeded; the submit command evaluates the unit ID only after a successful allocation; at restart a failed Load or non-pending Restart error leads to a Failed record before indexing, and every WorkUnit.Restart implementation fails (or errors on) a record still pending; no same-goroutine re-acquisition of the unit-index/work-type/status locks; the remote unit ID is persisted before the remote submission continues. It does not decide the outcome at each individual crash point or fsync behaviour.",
+         "Trusts go/types, go/ssa, VTA; rename-vs-truncate atomicity facts of POSIX file systems; lockedfile."),
  "C05": (False, "edge-cut on the results goroutine exits; value identity for read position and sent slice; append-only mirror", "", ""),
  "C06": (True, "exhaustive abstract evaluation of the freshness comparison chain over the 9 orderings of (epoch, sequence) vs stored; SSA edge cuts for dedup/self-origin; must-pass-through of the dedup insert; lockset atomicity; who-may/single-writer tables",
          "Decides, for every routing update, that handleRoutingUpdate's comparison chain accepts exactly the newer updates (all 9 orderings of update epoch/sequence against the stored pair are evaluated on the SSA; the quantities are only compared, so this is exhaustive); that picture writes and the relay are unreachable from the already-seen edge, the self-origin edge and the empty-origin edge; that the UpdateID is recorded before any effect on every path and in the same write-lock section as the lookup; that the relay excludes the receiving connection, which is the established peer ID, and is stamped with our ID; that sequence/epoch have single writers and the dedup/picture maps are accessed under their locks. It does not decide mesh-level behaviour over delivery orders.",
